@@ -12,7 +12,8 @@ RULE = ('A real bp.agent.Agent (apps admin, fragment, bpsec + a recorder applica
         '{deliver, forward, delete}) and a generated stream of 1-12 received bundles drawn from a pool of 4 identities and '
         'their look-alikes differing in exactly one of source / creation time / sequence number / fragment offset / '
         'total length, with destinations matching 0, 1 or several routes, the node own administrative EID, bundles '
-        'sourced by the node itself and exact repeats; encoded by the independent RFC 9171 encoder.  Oracle = reference '
+        'sourced by the node itself, exact repeats and copies damaged in transit (failing CRC; dropped without trace, so a '
+        'later intact copy is still new); encoded by the independent RFC 9171 encoder.  Oracle = reference '
         'model (seen-set keyed as the property says; action of the first re.match-ing route; own admin EID => deliver) '
         'compared after every receive with the recorder invocations, the agent end-of-processing records and the '
         'bundles handed to the convergence layer (decoded independently).  Non-trivial = history holds a repeat, a '
@@ -67,7 +68,10 @@ def bundle_specs(draw):
     elif variant == 'huge-time':
         tval = 2 ** 64 - 1 - base
     rpt = draw(st.sampled_from([0, 0, 1]))
-    return [src, tval, seq, frag, draw(st.integers(0, len(DESTS) - 1)), rpt]
+    # a copy damaged in transit (payload octet changed, CRC left as it was): dropped without trace, so a later intact
+    # copy of the same identity is still new
+    damaged = draw(st.sampled_from([0, 0, 0, 0, 1]))
+    return [src, tval, seq, frag, draw(st.integers(0, len(DESTS) - 1)), rpt, damaged]
 
 
 def strategy(tier):
@@ -80,11 +84,13 @@ def pinned_cases():
                                    'bundles': [[0, 1000, 0, None, 0, 1], [0, 1000, 0, None, 0, 1], [0, 1000, 1, None, 1, 0],
                                                [3, 1000, 0, None, 0, 0], [1, 1000, 0, None, 3, 0], [0, 1001, 0, None, 5, 0],
                                                [0, 1000, 0, [0, 10], 2, 0], [0, 1000, 0, [5, 10], 2, 0]]}
+    yield 'damaged-then-intact', {'routes': [[2, 'deliver']], 'bundles': [[0, 1000, 0, None, 0, 1, 1], [0, 1000, 0, None, 0, 1, 0],
+                                                                       [0, 1000, 0, None, 0, 1, 0]]}
 
 
 def build(spec):
     from vlib import ref9171 as r
-    src, tval, seq, frag, dest, rpt = spec
+    src, tval, seq, frag, dest, rpt = spec[:6]
     flags = 0
     if frag is not None:
         flags |= r.FLAG_FRAGMENT
@@ -121,7 +127,7 @@ def execute(case):
     node.agent._finish_bundle = finish
 
     seen = set()
-    has_repeat = has_lookalike = has_multi = False
+    has_repeat = has_lookalike = has_multi = has_damaged = False
     base_idents = set()
     for step, spec in enumerate(case['bundles']):
         bundle = build(spec)
@@ -132,7 +138,16 @@ def execute(case):
         matching = [(pat, act) for pat, act in routes if re.match(pat, dest_text)]
         if len(set(a for _p, a in matching)) >= 2:
             has_multi = True
-        if src_text == NODE:
+        wire = r.encode(bundle)
+        damaged = len(spec) > 6 and bool(spec[6])
+        if damaged:
+            pdata = bytes.fromhex(bundle['blocks'][-1]['data'])
+            pos = wire.rfind(pdata)
+            wire = wire[:pos] + bytes([wire[pos] ^ 0x01]) + wire[pos + 1:]
+            has_damaged = True
+        if damaged:
+            expect = 'dropped'
+        elif src_text == NODE:
             expect = 'ignored'
         elif ident in seen:
             expect = 'ignored'
@@ -148,7 +163,7 @@ def execute(case):
             else:
                 expect = 'none'
         n_fin, n_rec, n_sent = len(finishes), len(node.records(False)), len(node.sent())
-        err = node.receive(r.encode(bundle))
+        err = node.receive(wire)
         new_fin = finishes[n_fin:]
         new_rec = node.records(False)[n_rec:]
         new_sent = [r.decode(x) for x in node.sent()[n_sent:]]
@@ -157,6 +172,15 @@ def execute(case):
         delivered = [x for x in new_rec if x['deliver'] and not x['fragment']]
         where = 'step %d %s dest %s src %s (routes %s)' % (step, ident, dest_text, src_text, routes)
         is_frag = bundle['primary']['frag'] is not None
+        if expect == 'dropped':
+            # (an exception out of the receive callback also counts as dropped: the CL adaptor swallows it)
+            if new_fin or delivered or forwarded or reports or new_rec:
+                out.fail('damaged-copy-processed', 'a copy with a failing CRC was acted on: finish %s, delivered %d, forwarded %d, '
+                         'reports %d (%s)' % (new_fin, len(delivered), len(forwarded), len(reports), where))
+            out.label('damaged-copy')
+            if ident not in seen:
+                out.label('damaged-before-intact')
+            continue
         if err is not None:
             out.fail('receive-raises:%s' % type(err).__name__, 'receiving a well-formed bundle raised %s: %s (%s)'
                      % (type(err).__name__, err, where))
